@@ -130,6 +130,11 @@ def sympy_part(ob):
                 ob.check(f"sympy/getter/{syn}=={gen}[{','.join(s1)}]", False, f"{type(e).__name__}: {e}")
 
 
+def O_sys(v):
+    from .. import arrays as AR
+    return AR.sysof(v)
+
+
 def array_part(ob):
     """bounded: NumPy field access / item assignment and Awkward fields through synonyms (small arrays, all 20 systems)"""
     import numpy as np
@@ -213,6 +218,23 @@ def array_part(ob):
                 ob.check(f"numpy/mixed-spelling/element{cid}", ok_el)
                 ob.check(f"numpy/mixed-spelling/coordinate-subview-element{cid}", ok_sub)
                 ob.check(f"numpy/mixed-spelling/flavor{cid}", isinstance(arr, vector.Momentum) == any(c != n for c, n in zip(combo, names)))
+                # the same spelled columns handed over in other legal containers: a structured array with the fields in reversed order, a
+                # multi-field view of a wider record (non-packed, out-of-order offsets), a dtype with explicit offsets (padding)
+                rev = list(reversed(list(zip(combo, names))))
+                rec_rev = np.empty(3, dtype=[(c, np.float64) for c, _ in rev])
+                wide = np.empty(3, dtype=[("pad0", np.float64)] + [(c, np.float64) for c, _ in rev] + [("pad1", np.int32)])
+                offs = np.empty(3, dtype=dict(names=list(combo), formats=[np.float64] * len(combo), offsets=[16 * (len(combo) - 1 - i) + 4 for i in range(len(combo))], itemsize=16 * len(combo) + 8))
+                for c, n in zip(combo, names):
+                    rec_rev[c] = data[n]; wide[c] = data[n]; offs[c] = data[n]
+                wide["pad0"] = -77.0; wide["pad1"] = -9
+                for cname, cont in (("reversed-record", rec_rev), ("multi-field-view", wide[list(combo)]), ("explicit-offsets", offs)):
+                    try:
+                        arr2 = vector.array(cont)
+                        okc = isinstance(arr2, vector.Momentum) == any(c != n for c, n in zip(combo, names)) and O_sys(arr2) == O_sys(a_gen) and \
+                            all(np.array_equal(np.asarray(getattr(arr2, n)), data[n]) and np.array_equal(np.asarray(arr2[c]), data[n]) and np.array_equal(np.asarray(arr2[n]), data[n]) for c, n in zip(combo, names))
+                        ob.check(f"numpy/mixed-spelling/container/{cname}{cid}", okc, {n: np.asarray(getattr(arr2, n)).tolist() for n in names})
+                    except Exception as e:
+                        ob.check(f"numpy/mixed-spelling/container/{cname}{cid}", False, f"{type(e).__name__}: {str(e)[:150]}")
                 # slice assignment from an array spelled this way into a momentum array spelled the canonical momentum way (and vice versa)
                 data2 = {n: data[n] * 2.0 + 0.125 for n in names}
                 rhs = np.empty(3, dtype=[(c, np.float64) for c in combo])         # plain records whose columns carry these spellings
